@@ -262,6 +262,9 @@ func (w *World) monTokenReqs(rec *CheckRec) {
 				if w.k8sMode && strings.HasPrefix(p, "client-auth") {
 					prop = "C19"
 				}
+				if len(w.Filters) > 1 && strings.HasPrefix(p, "client-auth") {
+					w.violate("C18", "token-request-with-another-filters-credentials", fmt.Sprintf("check #%d (%s): %s", rec.N, f.Spec.Chain, p))
+				}
 				w.violate(prop, "token-request:"+strings.Fields(p)[0], fmt.Sprintf("check #%d %s grant: %s", rec.N, tr.Grant, p))
 			case strings.HasPrefix(p, "stale refresh"), strings.HasPrefix(p, "unknown refresh"):
 				if !w.lostReply[tr.Chain] {
@@ -455,6 +458,26 @@ func (w *World) monOK(rec *CheckRec) {
 	}
 	f := w.Filters[rec.Filter]
 	w.probe("ok-verdicts")
+	// C18: a session created through one filter is honoured only by that filter
+	if sm := w.sess(rec.SID); sm != nil && sm.Filter != rec.Filter {
+		w.probe("foreign-session-presented-and-honoured")
+		w.violate("C18", "session-of-one-filter-honoured-by-another:"+w.storeTopology(sm.Filter, rec.Filter), fmt.Sprintf("check #%d: filter %s answered OK for session %s that was created through filter %s", rec.N, f.Spec.Chain, w.canon(rec.SID), w.Filters[sm.Filter].Spec.Chain))
+	}
+	if len(w.Filters) > 1 {
+		// the forwarded ID token must verify under THIS filter's key set and audience
+		if v := rec.OKHeaders[f.Spec.IDToken.Header]; v != "" {
+			tok := strings.TrimPrefix(v, f.Spec.IDToken.Preamble+" ")
+			whose := "own-session"
+			if sm := w.sess(rec.SID); sm != nil && sm.Filter != rec.Filter {
+				whose = "foreign-session"
+			}
+			if claims, err := VerifyJWT(tok, f.IdP.Keys); err != nil {
+				w.violate("C18", "forwarded-token-not-under-this-filters-keys:"+whose, fmt.Sprintf("check #%d (%s): %v", rec.N, f.Spec.Chain, err))
+			} else if !audContains(claims["aud"], f.Spec.ClientID) {
+				w.violate("C18", "forwarded-token-for-another-audience:"+whose, fmt.Sprintf("check #%d (%s)", rec.N, f.Spec.Chain))
+			}
+		}
+	}
 	viol := func(sig, detail string) {
 		w.violate("C01", sig, fmt.Sprintf("check #%d %s%s answered OK: %s", rec.N, rec.Host, rec.Path, detail))
 	}
@@ -907,4 +930,30 @@ func (w *World) keyKnowledge(f *FilterRT, signer *SignKey) string {
 		return "maybe" // an older cached key set may still contain it
 	}
 	return "unknown-key"
+}
+
+func audContains(aud any, id string) bool {
+	switch a := aud.(type) {
+	case string:
+		return a == id
+	case []any:
+		for _, x := range a {
+			if s, _ := x.(string); s == id {
+				return true
+			}
+		}
+	}
+	return false
+}
+
+// storeTopology names how two filters' stores relate (part of the C18 signature).
+func (w *World) storeTopology(a, b int) string {
+	sa, sb := w.Filters[a].Spec.Store, w.Filters[b].Spec.Store
+	switch {
+	case sa == "memory" && sb == "memory":
+		return "shared-memory-store"
+	case sa == sb:
+		return "shared-redis"
+	}
+	return "separate-stores"
 }
